@@ -191,6 +191,21 @@ def parseOp (h : Heap) (hs : List Ref) (ws : List String) : Option (Funs × Op) 
     pure (noF, .mutInv m (resetTol x))
   | ["copy", k] => do pure (noF, .copy (← handle? hs k))
   | ["pickle", k] => do pure (noF, .pickle (← handle? hs k))
+  | ["views", k, sl] => do              -- m[a:b:c] (`n` = None) / m[...] (`all`): the selector is resolved by the model
+    let m ← handle? hs k
+    let n := match getModel h m with | .ok (_, vs, _) => vs.length | .error _ => 0
+    if sl = "all" then pure (noF, .view m ((List.range n).map (fun (i : Nat) => (i : Int))))
+    else
+      match sl.splitOn ":" with
+      | [a, b, c] =>
+        let oi : String → Option (Option Int) := fun t => if t = "n" then some none else t.toInt?.map some
+        let a ← oi a
+        let b ← oi b
+        let c ← oi c
+        match sliceSel n a b c with
+        | some ix => pure (noF, .view m ix)
+        | none => pure (noF, .view m [(n : Int)])          -- step 0: rejected (an index that cannot exist)
+      | _ => none
   | ["view", k, ix] => do
     let m ← handle? hs k
     let ix ← (ix.splitOn ",").mapM String.toInt?
